@@ -19,6 +19,11 @@ func coreC01(tier string) []RunSpec {
 			out = append(out, RunSpec{Profile: "core:" + kind, Params: map[string]int{"force": mwKind(kind), "k": k}})
 		}
 	}
+	// one storage error at the k-th storage call of a melt that is settled internally, then the mint is
+	// restarted, then everything that was ever presented is presented again
+	for k := 1; k <= 22; k++ {
+		out = append(out, RunSpec{Profile: "core:internal-fault-restart-replay", Params: map[string]int{"frr": 1, "fk": k}})
+	}
 	return out
 }
 
@@ -88,6 +93,22 @@ func runC01(rc *RunCtx) {
 		m.User.Fund("A", 64+32+16+8+4+2+1)
 		m.User.Fund("A", 200)
 	})
+	if rc.P("frr", 0) == 1 {
+		m.Faulted = true
+		m.step = 0
+		m.NextPlans = []*FaultPlan{{Node: "A", Kind: "db_error", SeamKind: "db", Pos: rc.P("fk", 1)}}
+		m.Step(mwKind("internal"), false)
+		m.NextPlans = nil
+		m.StepRestart(false)
+		for i, k := range []string{"replay", "swap", "swap", "replay", "swap", "checkstate", "replay"} {
+			m.step = 1 + i
+			m.Step(mwKind(k), false)
+		}
+		m.Finale()
+		rc.S.Probe("c01_internal_fault_restart_replay")
+		rc.Nontrivial = true
+		return
+	}
 	forced, isForced := rc.Spec.Params["force"]
 	// weights:       fund swap melt resolve replay dup race checkstate restore restart clock adv internal rotate
 	weights := []int{2, 3, 3, 2, 4, 2, 6, 2, 1, 1, 1, 0, 1, 0, 0, 3, 2}
